@@ -453,4 +453,11 @@ def r08_codec(ctx):
     ctx.borrow(c17.r17_4, 'R08.7')
 
 
-RULES = [('R08.7', r08_codec), ('R08-alien', r08_alien_chunks), ('R08-induction', r08_induction), ('R08.2', r08_writer), ('R08.3', r08_reader), ('R08.5', r08_clip), ('R08.1', r08_vlq), ('R08.4', r08_header), ('R08.6', r08_debug)]
+def r08_charset(ctx):
+    """The bytes written for a text event are its text in the file's charset, and the reader decodes with the same: save and
+    load run their track loops inside the charset scope (shared with C17 R17.1/R17.3)."""
+    from . import c17
+    ctx.borrow(c17.r17_scoping, 'R08.8')
+
+
+RULES = [('R08.8', r08_charset), ('R08.7', r08_codec), ('R08-alien', r08_alien_chunks), ('R08-induction', r08_induction), ('R08.2', r08_writer), ('R08.3', r08_reader), ('R08.5', r08_clip), ('R08.1', r08_vlq), ('R08.4', r08_header), ('R08.6', r08_debug)]
